@@ -141,10 +141,15 @@ def run(ck):
                             continue
                         r = fn(np.array(a), np.array(b))
                     elif use_out:
-                        o = np.full(np.broadcast(a, b).shape, 0xee, dtype=np.uint8)
-                        r = fn(a, b, out=o)
-                        if r is not o or not np.array_equal(o, exp):
-                            wrap_fail.append((key, a.tolist(), b.tolist(), 'out= array did not receive the result'))
+                        # the output array given by keyword and (the documented signature is f(x1, x2, out=None)) positionally
+                        bad = False
+                        for positional in (False, True):
+                            o = np.full(np.broadcast(a, b).shape, rng.choice([0xee, 0, 3]), dtype=np.uint8)
+                            r = fn(a, b, o) if positional else fn(a, b, out=o)
+                            if r is not o or not np.array_equal(o, exp):
+                                wrap_fail.append((key, a.tolist(), b.tolist(), ('positional ' if positional else '') + 'out= array did not receive the result'))
+                                bad = True
+                        if bad:
                             continue
                     else:
                         r = fn(a, b)
@@ -163,10 +168,14 @@ def run(ck):
                         continue
                     r = logic.mv_not(np.array(a))
                 elif use_out:
-                    o = np.full(a.shape, 0xee, dtype=np.uint8)
-                    r = logic.mv_not(a, out=o)
-                    if r is not o or not np.array_equal(o, exp):
-                        wrap_fail.append((key, a.tolist(), None, 'out= array did not receive the result'))
+                    bad = False
+                    for positional in (False, True):
+                        o = np.full(a.shape, rng.choice([0xee, 0, 3]), dtype=np.uint8)
+                        r = logic.mv_not(a, o) if positional else logic.mv_not(a, out=o)
+                        if r is not o or not np.array_equal(o, exp):
+                            wrap_fail.append((key, a.tolist(), None, ('positional ' if positional else '') + 'out= array did not receive the result'))
+                            bad = True
+                    if bad:
                         continue
                 else:
                     r = logic.mv_not(a)
